@@ -23,7 +23,7 @@ class HarnessAbort(BaseException):
 
 
 class Actor:
-    __slots__ = ("name", "idx", "lock", "state", "pred", "dead", "thread_id", "error", "is_client", "prio", "waitkind")
+    __slots__ = ("name", "idx", "lock", "state", "pred", "dead", "thread_id", "error", "is_client", "prio", "waitkind", "deadline")
 
     def __init__(self, name, idx, is_client=False):
         self.name = name
@@ -38,6 +38,7 @@ class Actor:
         self.is_client = is_client
         self.prio = 0
         self.waitkind = ""
+        self.deadline = None
 
     def __repr__(self):
         return "<Actor %s %s>" % (self.name, self.state)
@@ -72,6 +73,8 @@ class Sched:
         self.interleave_sig = []  # (actor, kind) at those picks
         self._spawn_count = 0
         self.max_live = 1
+        self.clock = None  # set by the world: waits with a time-out are measured on the simulated clock
+        self.time_jumps = 0
 
     # ------------------------------------------------------------------ actors
     def attach_client(self, name="client"):
@@ -162,8 +165,9 @@ class Sched:
             raise exc
         return directive
 
-    def wait(self, pred, kind="wait"):
-        """Block the calling actor until pred() holds.  Also a yield point."""
+    def wait(self, pred, kind="wait", deadline=None):
+        """Block the calling actor until pred() holds.  Also a yield point.  `deadline` (simulated monotonic ns)
+        tells the scheduler when pred() turns true by the passing of time alone."""
         a = self.current
         if a is None:
             if not pred():
@@ -186,6 +190,7 @@ class Sched:
             a.state = BLOCKED
             a.pred = pred
             a.waitkind = kind
+            a.deadline = deadline
         self._reschedule(a)
         if a.dead:
             self._die(a)
@@ -204,7 +209,15 @@ class Sched:
             elif x.state == BLOCKED and x.pred():
                 x.state = RUNNABLE
                 x.pred = None
+                x.deadline = None
                 out.append(x)
+        if not out and self.clock is not None:
+            # nobody can run: discrete-event time - jump to the earliest deadline somebody is waiting for
+            dl = [x.deadline for x in self.actors if x.state == BLOCKED and x.deadline is not None]
+            if dl and min(dl) > self.clock.mono:
+                self.clock.advance(min(dl) - self.clock.mono)
+                self.time_jumps += 1
+                return self._runnable()
         return out
 
     def _reschedule(self, a):
